@@ -44,20 +44,34 @@ def I(s):
 
 
 class Path:
-    def __init__(self, segs, leading=False):
+    """args = n: the n-th segment (1-based) carries the generic arguments `::<u8>` (only writable as the value of a
+    `crate = ..` option)."""
+
+    def __init__(self, segs, leading=False, args=None):
         self.segs = [I(s) if isinstance(s, str) else s for s in segs]
         self.leading = leading
+        self.args = args
 
     def rust(self):
-        return ('::' if self.leading else '') + '::'.join(s.rust() for s in self.segs)
+        parts = [s.rust() + ('::<u8>' if self.args == i + 1 else '') for i, s in enumerate(self.segs)]
+        return ('::' if self.leading else '') + '::'.join(parts)
 
     def sexp(self):
+        if self.args is not None:
+            return '(pa %d %d (t : : < u8 >) %s)' % (self.leading, self.args, ' '.join(s.sexp() for s in self.segs))
         return '(p %d %s)' % (self.leading, ' '.join(s.sexp() for s in self.segs))
 
 
 def P(s):
     lead = s.startswith('::')
     return Path([x for x in s.lstrip(':').split('::')], lead)
+
+
+def PA(s, n=None):
+    """A path one of whose segments (default: the last) has generic arguments: `foo::<u8>`."""
+    p = P(s)
+    p.args = n or len(p.segs)
+    return p
 
 
 # ---------------------------------------------------------------- metas
